@@ -90,3 +90,61 @@ RECIPES["C16"] = {
          "unwind": 22, "timeout": 900, "flags": ["--sat-solver", "cadical"]},
     ],
 }
+
+IAUTH = ["repo:modules/iauth_misc.c", "repo:src/set.c", "repo:src/common.c", "repo:src/bitset.c",
+         "env/rec.c", "env/iauth_env.c", "env/conf_stub.c", "env/core_env.c", "env/libc_models.c"]
+
+_CMPS = ["set_compare_int", "set_compare_voidp", "set_compare_charp", "set_compare_ptr", "conf_object_cmp", "irc_inaddr_cmp"]
+_XQ = ["iauth_xquery_check"]
+FP_IAUTH = {
+    "set_dispose_node.function_pointer_call.1": ["iauth_req_cleanup"],
+    "set_splay.function_pointer_call.1": _CMPS,
+    "set_splay.function_pointer_call.2": _CMPS,
+    "set_splay.function_pointer_call.3": _CMPS,
+    "vp_fire_timer.function_pointer_call.1": ["iauth_timeout"],
+    "notify_pre_registered.function_pointer_call.1": ["iauth_class_assign"],
+    "iauth_collect_config.function_pointer_call.1": ["iauth_xquery_report_config", "iauth_class_report_config"],
+    "iauth_collect_stats.function_pointer_call.1": ["iauth_xquery_report_stats", "iauth_class_report_stats"],
+    "parse_new_client.function_pointer_call.1": ["iauth_xquery_new_client"],
+    "parse_hostname.function_pointer_call.1": _XQ,
+    "parse_no_hostname.function_pointer_call.1": _XQ,
+    "parse_ident.function_pointer_call.1": _XQ,
+    "parse_nick.function_pointer_call.1": _XQ,
+    "parse_hurry_up.function_pointer_call.1": _XQ,
+    "parse_password.function_pointer_call.1": ["iauth_xquery_password"],
+    "parse_user_info.function_pointer_call.1": ["iauth_xquery_user_info"],
+    "parse_x_reply.function_pointer_call.1": ["iauth_xquery_x_reply"],
+    "parse_x_unlinked.function_pointer_call.1": ["iauth_xquery_x_unlinked"],
+    "iauth_class_foreach_rule.function_pointer_call.1": ["iauth_class_rule_check", "iauth_class_rule_stats"],
+}
+
+STEP_EVENTS = ["EV_N", "EV_d", "EV_n", "EV_u", "EV_U", "EV_H", "EV_P", "EV_X", "EV_x", "EV_TIMER", "EV_D", "EV_T", "EV_C"]
+STEP_UNWINDSET = ["set_splay.0:4", "set_first.0:4", "set_clear.0:4", "set_dispose_node:2", "set_clear:2",
+                  "iauth_req_cleanup:2", "strcmp.0:70", "strlen.0:70", "strchr.0:70"]
+
+
+def step_job(name, check, nreq=2, nsvc=2, events=STEP_EVENTS, extra=None):
+    d = {"NREQ": nreq, "NSVC": nsvc, check: None}
+    if extra:
+        d.update(extra)
+    return {"name": name, "src": ["C_step.c"] + IAUTH, "defs": {"all": d},
+            "splits": {"all": [{e: None} for e in events]},
+            "unwind": 800, "unwindset": STEP_UNWINDSET, "fp_restrict": FP_IAUTH,
+            "flags": ["--sat-solver", "cadical"], "timeout": 900}
+
+
+RECIPES["C01"] = {
+    "units": ["modules/iauth_core.c", "modules/iauth_xquery.c", "modules/iauth_class.c", "modules/iauth_misc.c", "src/set.c", "src/bitset.c", "src/common.c"],
+    "jobs": [step_job("step", "CHECK_ALL")],
+}
+
+RECIPES["C04"] = {
+    "units": ["modules/iauth_core.c", "modules/iauth_xquery.c", "src/set.c"],
+    "jobs": [
+        {"name": "tag", "src": ["C04_tag.c"] + IAUTH, "defs": {"quick": {"VP_ND": 9}, "thorough": {"VP_ND": 12}},
+         "unwind": 40, "unwindset": ["set_splay.0:4"], "fp_restrict": FP_IAUTH, "timeout": 600},
+    ],
+}
+
+# Properties without a claimed check, with the reason (kept current by hand).
+NOT_APPLICABLE = {}
